@@ -2,7 +2,7 @@
 """Regenerates /verif/MANIFEST.json from the table below (single source for the claims)."""
 import json, os
 V = os.path.dirname(os.path.dirname(os.path.abspath(__file__)))
-HOOK_COMMITS = ["b4cd205", "8b1d98b", "2561f25", "36a713e", "492ded8"]
+HOOK_COMMITS = ["b4cd205", "8b1d98b", "2561f25", "36a713e", "492ded8", "4d59119"]
 NOTE = ("bounded constants in TLC; conformance of the implementation is sampled (generated behaviours, recorded traces, "
         "crash images at hook events), the stepping API is trusted to drive the stages like the worker loops")
 CLAIMS = {
@@ -36,7 +36,7 @@ CLAIMS = {
          "TLC model checking of Migrate.tla + behaviour replay"),
  "C10": ("MultiTree.tla (roots, node ids standing for claimed addresses, node reference counts, commit overlay, queue, sequential ghost state) model-checked for all histories of InsertTree / ReferenceTree / DereferenceTree over a menu of tree shapes with shared nodes x all log-worker schedules for plain, ref-counted-root and append-only columns (NoCorrupt, IdealVisible, FinalState, necessity config); generated behaviours incl. restarts and transactions that must be rejected (fan-out > 255, invalid mixes) replayed: every visible tree traversed through TreeReader and direct access with the id<->address bijection, entry counts and the ref-count table compared, node sizes 0 bytes .. multi-part, fan-out up to 255; long random histories recorded from the implementation (client calls in model node ids, Process/Defer from hook events, projections of every read, ref-count table and slot census) validated by TLC against TraceMultiTree.tla",
          "TLC model checking of MultiTree.tla + behaviour replay through the multitree API + TLC trace validation"),
- "C11": ("MultiTree.tla with reader locks, the log worker's deferral check and plan as separate steps, used_trees / to_dereference and re-queuing under a fresh id (ReaderStable, NoCorrupt, IdealVisible, XVisible, FinalState; necessity configs without deferral, without used_trees, without the write lock held from check to plan); fine-grained behaviours replayed with reader threads holding the lock across steps and the log worker's call held at BeginRecord through the hook sink, hook events matched against the specification's step; the F18 counterexample schedule forced on the real code; the deferral reorder (F3) is a recorded known finding recognised through the model's conflict sets; random histories with reader threads recorded from the implementation and validated by TLC against TraceMultiTree.tla (every Process/Defer decision of the real log worker must be the one the specification allows)",
+ "C11": ("MultiTree.tla with reader locks, the log worker's deferral check and plan as separate steps, used_trees / to_dereference and re-queuing under a fresh id (ReaderStable, NoCorrupt, IdealVisible, XVisible, FinalState; necessity configs without deferral, without used_trees, without the write lock held from check to plan); fine-grained behaviours replayed with reader threads holding the lock across steps and the log worker's call held at BeginRecord through the hook sink, hook events matched against the specification's step; the F18 counterexample schedule forced on the real code; the deferral reorder (F3) is a recorded known finding recognised through the model's conflict sets; random histories with reader threads recorded from the implementation and validated by TLC against TraceMultiTree.tla (every Process/Defer decision of the real log worker must be the one the specification allows), also with the four real worker threads, a writer, a pruner and reader threads running freely (TraceMultiTreeLive.tla)",
          "TLC model checking of MultiTree.tla (fine-grained) + threaded behaviour replay + forced schedule + TLC trace validation"),
  "C06": ("Pdb.tla pipeline model with value ids; the harness maps ids to values of every boundary length of the storage layout (255 tiers x {cap-1, cap, cap+1}, multipart part boundaries, 0..5 bytes, > 1 MiB), compressible or not, for compression none/lz4/snappy and several thresholds; recorded histories sweep every length with overwrites across tiers at every pipeline stage, restarts and crashes; TLC validates every read and the structural dumps (one stored value per live key, no leaked or double-used slot) and steady rounds",
          "TLC trace validation against Pdb.tla with boundary-length concretization + structural dump invariants in TLA+"),
